@@ -93,7 +93,8 @@ Step ==
               /\ UNCHANGED <<viols, inited, execed, finalized, tickExec, cancelledWatch, mustFinalize, mustUnpause, mustUnhold, forced, p, newRun>>
          [] e.e = "req" ->
               /\ viols' = AddViols(viols, Failing(ReqClauses(e)), l)
-              /\ cancelledWatch' = IF e.k = "cancel" /\ e.res = "ok" /\ e.kind = "watch" THEN cancelledWatch \cup {e.node} ELSE cancelledWatch
+              \* (the kind of an accepted cancel is already "watch-after-cancel": it is named after the request took effect)
+              /\ cancelledWatch' = IF e.k = "cancel" /\ e.res = "ok" /\ e.cls = "WatchNode" THEN cancelledWatch \cup {e.node} ELSE cancelledWatch
               /\ mustFinalize' = IF e.k = "cancel" /\ e.res = "ok" /\ e.kind = "uod" /\ e.target \in inited
                                  THEN mustFinalize \cup {e.target} ELSE mustFinalize
               /\ mustUnpause' = (mustUnpause \/ (e.k = "cancel" /\ e.res = "ok" /\ e.kind = "pause"))
